@@ -62,7 +62,7 @@ func vCfgInForceOK(n *vNode, ids []string) bool {
 // removed; one non-voting member) with the given log index.
 func vGenCfg(n *vNode, name string, ids []string, index uint64) (*Configuration, []byte) {
 	c := &Configuration{Members: map[string]string{}, IsVoter: map[string]bool{}, Index: index}
-	shape := vChoose(name+".shape", 4)
+	shape := vChoose(name+".shape", vBound("cfgshapes"))
 	for i, id := range ids {
 		member, voter := true, true
 		switch shape {
@@ -156,12 +156,19 @@ func vh_AECFG() {
 			vAssume(vImplies(vAnd(le.Index == e.Index, le.Index <= r.commitIndex), le.Term == e.Term))
 		}
 	}
+	conflict := false
+	for _, le := range n.log.entries[1:] {
+		for _, e := range req.Entries {
+			conflict = vOr(conflict, vAnd(le.Index == e.Index, le.Term != e.Term))
+		}
+	}
 	pre := vSnapshotNode(n)
 	preCommittedIdx := r.committedConfiguration.Index
 
 	resp := &AppendEntriesResponse{}
 	err := r.AppendEntries(req, resp)
 	vDrain()
+	vCheckInv(n, false, true, false)
 	post := vSnapshotNode(n)
 	vAssert(err == nil, "C18.ae-total")
 	vAssert(!vHeld(&r.mu), "C18|C20.lock-released")
@@ -188,5 +195,5 @@ func vh_AECFG() {
 	if c, found := vLatestLogCfg(n); found && resp.Success {
 		vCoverIf(c.Index > pre.lastIndex, "appended-configuration-in-force")
 	}
-	vCoverIf(vAnd(resp.Success, post.logLen < pre.logLen), "truncated")
+	vCoverIf(vAnd(resp.Success, conflict), "truncated")
 }
